@@ -6,17 +6,19 @@ Open Scope string_scope.
 Open Scope Z_scope.
 
 Definition tprof_of (t : term) : tprof :=
-  {| tp_type := gs (gn t 1); tp_samples := map (fun e => (gs (gn e 0), gz (gn e 1))) (gl (gn t 2)) |}.
+  {| tp_type := gs (gn t 1); tp_comments := gss (gn t 3);
+     tp_samples := map (fun e => (gs (gn e 0), gz (gn e 1))) (gl (gn t 2)) |}.
 
 Definition of_tprof (p : tprof) : term :=
   TL [TS (tp_type p); TL (map (fun kv => TL [TS (fst kv); TZ (snd kv)]) (tp_samples p));
-      TZ (if String.eqb (tp_type p) "" then 0 else 1)].
+      TZ (if String.eqb (tp_type p) "" then 0 else 1); of_ss (tp_comments p)].
 
 Definition of_otprof (o : option tprof) : term := match o with Some p => of_tprof p | None => TL [] end.
 Definition otprof_of (t : term) : option tprof :=
   match gl t with
   | [] => None
-  | _ => Some {| tp_type := gs (gn t 0); tp_samples := map (fun e => (gs (gn e 0), gz (gn e 1))) (gl (gn t 1)) |}
+  | _ => Some {| tp_type := gs (gn t 0); tp_comments := gss (gn t 3);
+                 tp_samples := map (fun e => (gs (gn e 0), gz (gn e 1))) (gl (gn t 1)) |}
   end.
 
 (* outcome kinds of harness/cmd/c16.go -> answers of the fetcher / of fetch() / of CheckValid *)
